@@ -361,7 +361,22 @@ class Ctx:
         res["log"] = out[-6000:]
         if not ok:
             m = re.search(r'File "\./([^"]+)", line (\d+)', out)
-            res["failed"].append("build of %s failed%s" % (target, (" at %s:%s" % (m.group(1), m.group(2))) if m else ""))
+            where = ""
+            if m:
+                where = " at %s:%s" % (m.group(1), m.group(2))
+                try:  # name the statement that no longer checks
+                    src = open(os.path.join(COQ, m.group(1))).read().split("\n")
+                    for i in range(min(int(m.group(2)), len(src)) - 1, -1, -1):
+                        mm = re.match(r"\s*(?:Theorem|Lemma|Corollary|Example|Fact|Definition|Fixpoint)\s+([A-Za-z_0-9']+)", src[i])
+                        if mm:
+                            where += " (in `%s`)" % mm.group(1)
+                            break
+                except OSError:
+                    pass
+                em = re.search(r"\nError:(.*?)(?:\n\S|\Z)", out, flags=re.S)
+                if em:
+                    where += ": " + " ".join(em.group(1).split())[:300]
+            res["failed"].append("build of %s failed%s" % (target, where))
             self.s1 = res
             return res
         thms, examples = props_theorems(pid)
